@@ -41,7 +41,9 @@ def airborne_velocity(
 
     subtype = common.bin2int(mb[5:8])
 
-    if common.bin2int(mb[14:24]) == 0 or common.bin2int(mb[25:35]) == 0:
+    if subtype in (1, 2) and (
+        common.bin2int(mb[14:24]) == 0 or common.bin2int(mb[25:35]) == 0
+    ):
         return None
 
     trk_or_hdg: None | float
